@@ -77,6 +77,19 @@ def valid_case(draw, max_leaves):
 
 
 @st.composite
+def long_product_case(draw):
+    """the same fractional power many times over (m1:7*m1:7*...): the exponents add up exactly, however large the
+    product of the denominators gets on the way"""
+    p_, s_ = draw(st.sampled_from([("", "m"), ("", "s"), ("k", "m"), ("", "g"), ("m", "s"), ("", "A")]))
+    d = draw(st.sampled_from([7, 11, 13, 457, 1001, 3]))
+    n = draw(st.integers(22, 60))          # 7**19 > 2**53: beyond that the denominators are not exact as floats
+    t = ["u", p_, s_, 1, d, ""]
+    for _ in range(n - 1):
+        t = [draw(st.sampled_from(["*", "*", "*", "*", "/"])), t, ["u", p_, s_, 1, d, ""]]
+    return {"kind": "expr", "tree": t}
+
+
+@st.composite
 def cancel_case(draw):
     """total dimension zero: a dimensional pair cancels (possibly with different prefixes) next to a dimensionless unit
     that carries a factor (%, ppth, [pi] ...); Quantity(1,text) must hold the product of ALL factors exactly once"""
@@ -122,6 +135,7 @@ def strategies(tier):
     return {
         "valid": (valid_case(q if tier == "quick" else t), 2500, 60000),
         "cancel": (cancel_case(), 400, 8000),
+        "long_product": (long_product_case(), 150, 2500),
         "reject": (reject_case(q if tier == "quick" else t), 1500, 30000),
         "atom_random": (atom_case(), 1500, 30000),
     }
